@@ -1,7 +1,7 @@
 #!/bin/bash
 # tools/try_seed.sh <worktree> <property> <name>  -- confirm a seeded change and run the check against it
 # 1. baseline suite in the worktree (change applied)  2. demo fails with / passes without the change
-# 3. apply the patch to /repo, run ./check <property> (quick, seeds 0 and 1), undo
+# 3. run ./check <property> (quick, seeds 0 and 1) against the worktree (SKGSTAT_REPO); /repo is not touched
 set -u
 wt=$1; prop=$2; name=$3
 cd "$(dirname "$0")/.."
@@ -12,9 +12,7 @@ echo "== baseline in worktree (change applied)"; ./tools/run_baseline.py $wt | h
 echo "== demo with change"; (cd $wt && PYTHONPATH=$wt /venv/bin/python _seed/demo.py > /tmp/demo_with.txt 2>&1; echo "exit $?") | tee $out/demo_with.txt
 git -C /repo apply --check $out/patch.diff || { echo "PATCH DOES NOT APPLY to /repo"; exit 3; }
 echo "== demo without change (on /repo)"; (cd /repo && PYTHONPATH=/repo /venv/bin/python $out/demo.py > /tmp/demo_without.txt 2>&1; echo "exit $?") | tee $out/demo_without.txt
-git -C /repo apply $out/patch.diff
+git -C $wt diff -- skgstat | diff -q - $out/patch.diff >/dev/null || echo "NOTE: worktree diff differs from patch.diff"
 for seed in 0 1; do
-  echo "== check $prop seed $seed"; VERIF_SEED=$seed ./check $prop 2>&1 | grep -v "^KNOWN" | cut -c1-400 | tail -4 | tee -a $out/check_$seed.txt
+  echo "== check $prop seed $seed"; SKGSTAT_REPO=$wt VERIF_SEED=$seed ./check $prop 2>&1 | grep -v "^KNOWN\|WARNING" | cut -c1-400 | tail -4 | tee $out/check_$seed.txt
 done
-git -C /repo checkout -- .
-git -C /repo status --short | head -3
